@@ -230,7 +230,13 @@ def edited_leg(ctx, rng, uni, valid_strings, quick):
             if "@" in x[:m.start()]:
                 return False          # nothing is said about blanks after the density tag
         return True
-    strs = sorted(x for x in strs if ":" not in x and "%" not in x and "/" not in x and not silent.search(x) and blanks_settled(x))
+    from ..formexec import lex
+
+    def positive_counts(x):
+        # the property speaks about positive counts: a count (or density) of zero is outside it ("(X)0.@1n" divides by zero)
+        return not any(t["t"] in ("num", "dens") and t["v"]["s"] == 0 for t in lex(x))
+    strs = sorted(x for x in strs if ":" not in x and "%" not in x and "/" not in x and not silent.search(x) and blanks_settled(x)
+                  and positive_counts(x))
     items = [{"id": "e%d" % i, "s": s} for i, s in enumerate(strs)]
     outs = forkrun.map_fresh("ptv.formexec", "observe_parse", [{"items": items[i::32]} for i in range(32)])
     events = []
